@@ -162,7 +162,7 @@ PROPS["C03"] = {
                   "value the datum denotes (ofAvro) and the exact remainder; a datum that does not fit the target is an error (induction over the "
                   "step budget; ~1500 lines of Lean incl. the construction lemma buildOkAt). Tie: generated (schema, datum, plan, compatible "
                   "target) cases; the harness's encoding is re-computed by the Lean specification encoder, the real decoder's result is compared "
-                  "with the model's and with ofAvro.",
+                  "with the model's and with ofAvro. Budgeted forms without any 'out of budget' disjunct: decode_budget / decode_ok_budget / misfit_is_error_budget (explicit budget readBudget c v = c.sz + 2*v.sz + 2, independent of the writer's plan), and file_decode: ANY grouping of spec-encoded records into file blocks (empty blocks included), any compressor the decompressor undoes, one decoder with one fixed budget - readFile delivers exactly the records' values in order.",
     "level_note": "Trusted: Lean kernel; spec transcription (Wire.lean) of Avro 1.8 binary encoding; model-to-code tie is differential. File-level partition/compression is covered by C07/C01.",
     "rule": "Random record schemas (depth <= 4 quick / 6 thorough; all primitive types, fixed, nested records, arrays, maps, nullable unions with "
             "null first or second, single- and multi-branch unions), random datums with boundary integers/float specials, random plans "
@@ -177,7 +177,7 @@ PROPS["C04"] = {
                   "(skip_exact); skip and read leave the same remainder (skip_eq_read); untargeted Go fields keep their value, a struct with no "
                   "matching field is returned unchanged, and the value delivered into a remaining field depends only on that field's codec, datum "
                   "and initial value (projection invariance). Tie: every generated encoding is read into a full target, a projected target "
-                  "(fields deleted, permuted, added, at every depth), a no-match target, and skipped; remaining lengths and values compared.",
+                  "(fields deleted, permuted, added, at every depth), a no-match target, and skipped; remaining lengths and values compared. skip_exact_budget: with the explicit budget readBudget c v the skip result is exactly the remainder (no 'out of budget' disjunct).",
     "level_note": "Trusted: Lean kernel; Wire.lean spec; differential tie for the model.",
     "rule": "Same generator as C03 plus projected targets (each field dropped with probability 1/3 at every nesting level, extra unrelated "
             "fields, shuffled order) and a struct with no matching field; Skip on the full codec.",
